@@ -360,7 +360,7 @@ def _reverse_job(w):
 # (c) Solver.simplify keeps the model set
 # ---------------------------------------------------------------------------------------------
 
-SK = ["x==3", "x!=0", "x<u5", "x>s1", "x+y==5", "y==x", "x&1==0", "x==1|x==6", "y>u6", "c", "!c", "F", "x<u2", "x+1==5"]
+SK = ["x==3", "x!=0", "x<u5", "x>s1", "x+y==5", "y==x", "x&1==0", "x==1|x==6", "y>u6", "c", "!c", "F", "x<u2", "x+1==5", "x<=s-3", "1<=sx", "x<=u5"]
 
 
 def _solver_job(item):
@@ -389,6 +389,13 @@ def _solver_job(item):
                         s.min(x)
                     except claripy.errors.UnsatError:
                         pass
+                elif pre == "qadd":
+                    # the first constraint is solved (a native solver exists), the others are only queued when simplify() runs
+                    s = H.make_solver(cls, {})
+                    s.add(uni.K[labels[0]])
+                    s.satisfiable()
+                    for l in labels[1:]:
+                        s.add(uni.K[l])
                 elif pre == "round2":
                     # a first simplify() happened when only the first constraint was there
                     s = H.make_solver(cls, {})
@@ -471,7 +478,7 @@ def solver_cases(tier):
         for labels in itertools.permutations(sk, n):
             if n == 3 and not (labels[0] < labels[1]):
                 continue
-            pres = ("none", "sat", "eval", "min", "round2") if (n < 3 and tier != "quick") else ("none", "eval", "round2")
+            pres = ("none", "sat", "eval", "min", "round2", "qadd") if (n < 3 and tier != "quick") else ("none", "eval", "round2", "qadd")
             for pre in pres:
                 out.append((labels, pre))
     return out
@@ -486,7 +493,7 @@ def run(tier: str) -> int:
         "unchanged, no exception; FP expression family through the same, compared by Z3 ground evaluation over the FP "
         "alphabet; (b) every BV/Bool Z3 declaration kind buildable through the z3 API x operand shapes abstracted by "
         "backends.z3._abstract and compared with ground evaluation of the Z3 term under every assignment; (c) every "
-        "constraint list of <= 2 (3) constraints x pre-query on five frontend classes: model set unchanged by simplify()",
+        "constraint list of <= 2 (3) constraints x pre-query (incl. query-then-add: later constraints still queued) on five frontend classes: model set unchanged by simplify()",
     )
     if tier == "quick":
         cfgs = [dict(w=1, depth=2, full=False), dict(w=2, depth=1), dict(w=3, depth=1)]
